@@ -85,15 +85,8 @@ def sinkencOp (w : List String) : String :=
     | _, _ => "bad-op"
   | _ => "bad-op"
 
-/-- the calls one after the other on ONE sink, carrying on after a failed call (harness/cfg `encseq`) -/
-def encseqLoop : List (List Bytes) → Sink → List String → Option (Sink × List String)
-  | [], s, acc => some (s, acc.reverse)
-  | ps :: rest, s, acc =>
-    match s.putAll ps with
-    | .ok s' => encseqLoop rest s' ("ok" :: acc)
-    | .err s' => encseqLoop rest s' ("write" :: acc)
-    | .panic => none
-
+/-- `encseq` (harness/cfg): the calls one after the other on ONE sink, carrying on after a failed call:
+    `Sink.callSeq`, the definition `C13.call_script` is about. -/
 def encseqOp (w : List String) : String :=
   match w with
   | kind :: c :: calls =>
@@ -101,13 +94,14 @@ def encseqOp (w : List String) : String :=
     | some cap, some pss =>
       let k := if kind == "carr" then "carray" else kind
       if kind == "carr" && cap != 12 then "bad-op" else
-      if !(kind == "carr" || kind == "slice" || kind == "cslice") || cap > 4096 then "bad-op" else
+      if !(kind == "carr" || kind == "slice" || kind == "cslice" || kind == "cbox") || cap > 4096 then "bad-op" else
       match mkSink k cap with
       | none => "bad-op"
       | some s =>
-        match encseqLoop pss s [] with
+        match s.callSeq pss with
         | none => "panic"
-        | some (s', rs) =>
+        | some (s', oks) =>
+          let rs := oks.map fun o => if o then "ok" else "write"
           let buf := (s'.memory.drop 16).take cap
           s!"{if rs.isEmpty then "-" else ",".intercalate rs} pos={s'.position} buf={hexOrDash buf}"
     | _, _ => "bad-op"
